@@ -86,7 +86,7 @@ pub fn strategy_for(k: u64) -> Strategy {
         1 => Strategy::Pct(1),
         2 => Strategy::Sticky,
         3 => Strategy::Pct(2),
-        4 => Strategy::Random,
+        4 => Strategy::Starve,
         _ => Strategy::Pct(3),
     }
 }
@@ -96,6 +96,7 @@ pub fn strategy_from_name(s: &str) -> Strategy {
         "random" => Strategy::Random,
         "sticky" => Strategy::Sticky,
         "lowest" => Strategy::Lowest,
+        "starve" => Strategy::Starve,
         "pct1" => Strategy::Pct(1),
         "pct2" => Strategy::Pct(2),
         "pct3" => Strategy::Pct(3),
